@@ -36,6 +36,8 @@
 package lamport
 
 import (
+	"fmt"
+	"math"
 	"sync/atomic"
 )
 
@@ -70,7 +72,16 @@ func (mc *MemClock) Time() Time {
 
 // Increment is used to return the value of the lamport clock and increment it afterwards
 func (mc *MemClock) Increment() (Time, error) {
-	return Time(atomic.AddUint64(&mc.counter, 1)), nil
+	for {
+		cur := atomic.LoadUint64(&mc.counter)
+		if cur == math.MaxUint64 {
+			// never wrap around: a clock that goes back to zero breaks every ordering guarantee
+			return 0, fmt.Errorf("lamport clock overflow")
+		}
+		if atomic.CompareAndSwapUint64(&mc.counter, cur, cur+1) {
+			return Time(cur + 1), nil
+		}
+	}
 }
 
 // Witness is called to update our local clock if necessary after
